@@ -118,11 +118,17 @@ func (w *watchers) handlersCore() []*hdlr {
 	cmChange := func(o client.Object) {
 		cm := o.(*api.ConfigMap)
 		key := cm.Namespace + "/" + cm.Name
+		data := cm.Data
+		if data == nil {
+			// nil means "not changed" to the converters, an
+			// emptied ConfigMap is a change that must be applied
+			data = map[string]string{}
+		}
 		switch key {
 		case w.cfg.ConfigMapName:
-			w.ch.GlobalConfigMapDataNew = cm.Data
+			w.ch.GlobalConfigMapDataNew = data
 		case w.cfg.TCPConfigMapName:
-			w.ch.TCPConfigMapDataNew = cm.Data
+			w.ch.TCPConfigMapDataNew = data
 		}
 	}
 	return []*hdlr{
